@@ -93,7 +93,7 @@ def _drm_selection_from_string(value: str) -> list[DrmSelectionTuple]:
         return []
     if value.startswith('all'):
         if '-' in value:
-            locations = {DrmLocation.from_string(loc) for loc in value.split('-')[1:]}
+            locations = {DrmLocation(loc) for loc in value.split('-')[1:]}
         else:
             locations = ALL_DRM_LOCATIONS
         return [(drm, locations) for drm in DrmSystem.values()]
